@@ -300,6 +300,105 @@ Example C15_bulk_children_links_atomic :
   preds (get (hp (fst a2)) 3) = [4; 1; 2].
 Proof. vm_compute. repeat split; reflexivity. Qed.
 
+(* ---- source-text tie (C15): the four relation setters of Task and the nine list-facade methods are translated from task.py
+   on every run a second time with `raise` as a VALUE (gen/SrcGraph.v, the `_x` definitions: `Ok (heap at the raise, XErr)`
+   for RuntimeError, `XRaise k` for an explicit raise of another exception, `XRet v` for a return).  Graph/SrcGraphAtomic.v
+   proves: the second translation is the first one with the heap kept ([xproj]); whenever the translated source raises, the
+   heap it hands back is the heap it was given - for the setters, `move`, `insert` and `reorder` on EVERY heap; and under the
+   hypotheses of the equivalence theorems there is no other outcome (no exception without a heap). ---- *)
+From PJ Require Import gen.SrcGraph Graph.SrcGraphEquiv2 Graph.SrcGraphEquiv3 Graph.SrcGraphEquiv6 Graph.SrcGraphAtomic.
+
+Theorem C15_src_set_parent_x_raise : forall F wr h t p h',
+  (src_set_parent_x F wr h t p = Ok (h', XErr) -> h' = h) /\
+  (forall k, src_set_parent_x F wr h t p = Ok (h', XRaise k) -> h' = h).
+Proof. exact src_set_parent_x_raise. Qed.
+
+Theorem C15_src_set_predecessors_x_raise : forall F h t vs h',
+  (src_set_predecessors_x F h t vs = Ok (h', XErr) -> h' = h) /\
+  (forall k, src_set_predecessors_x F h t vs = Ok (h', XRaise k) -> h' = h).
+Proof. exact src_set_predecessors_x_raise. Qed.
+
+Theorem C15_src_set_successors_x_raise : forall F h t vs h',
+  (src_set_successors_x F h t vs = Ok (h', XErr) -> h' = h) /\
+  (forall k, src_set_successors_x F h t vs = Ok (h', XRaise k) -> h' = h).
+Proof. exact src_set_successors_x_raise. Qed.
+
+Theorem C15_src_set_children_x_raise : forall F h t vs h',
+  (src_set_children_x F h t vs = Ok (h', XErr) -> h' = h) /\
+  (forall k, src_set_children_x F h t vs = Ok (h', XRaise k) -> h' = h).
+Proof. exact src_set_children_x_raise. Qed.
+
+Theorem C15_src_ch_move_atomic : forall h o ts b a h' x,
+  src_ch_move_x h o ts b a = Ok (h', x) -> (forall u, x <> XRet u) -> h' = h.
+Proof. exact src_ch_move_atomic. Qed.
+
+Theorem C15_src_ch_insert_atomic_any : forall F wr h o i t h' x,
+  src_ch_insert_x F wr h o i t = Ok (h', x) -> (forall u, x <> XRet u) -> h' = h.
+Proof. exact src_ch_insert_atomic_any. Qed.
+
+Theorem C15_src_ch_append_atomic : forall s o t h' x, WF s -> hid_tid (hp s) -> o < length (hp s) ->
+  (forall t', t = Some t' -> t' < length (hp s)) ->
+  src_ch_append_x (S (S (length (hp s)))) (wroots s) (hp s) o t = Ok (h', x) -> (forall u, x <> XRet u) -> h' = hp s.
+Proof. exact src_ch_append_atomic. Qed.
+
+Theorem C15_src_ch_remove_atomic : forall s o t h' x, WF s -> hid_tid (hp s) ->
+  src_ch_remove_x (S (S (length (hp s)))) (wroots s) (hp s) o t = Ok (h', x) -> (forall b, x <> XRet b) -> h' = hp s.
+Proof. exact src_ch_remove_atomic. Qed.
+
+Theorem C15_src_ch_reorder_atomic : forall h o ids h' x,
+  src_ch_reorder_x h o ids = Ok (h', x) -> (forall u, x <> XRet u) -> h' = h.
+Proof. exact src_ch_reorder_atomic. Qed.
+
+Theorem C15_src_pred_append_atomic : forall s t x h' r, WF s -> hid_tid (hp s) ->
+  (forall x', x = Some x' -> hidden (get (hp s) x') = false) ->
+  src_pred_append_x (S (S (length (hp s)))) (hp s) t x = Ok (h', r) -> (forall u, r <> XRet u) -> h' = hp s.
+Proof. exact src_pred_append_atomic. Qed.
+
+Theorem C15_src_succ_append_atomic : forall s t x h' r, WF s -> hid_tid (hp s) ->
+  (forall x', x = Some x' -> hidden (get (hp s) x') = false) ->
+  src_succ_append_x (S (S (length (hp s)))) (hp s) t x = Ok (h', r) -> (forall u, r <> XRet u) -> h' = hp s.
+Proof. exact src_succ_append_atomic. Qed.
+
+Theorem C15_src_pred_remove_atomic : forall s t x h' r, WF s -> hid_tid (hp s) ->
+  src_pred_remove_x (S (S (length (hp s)))) (hp s) t x = Ok (h', r) -> (forall b, r <> XRet b) -> h' = hp s.
+Proof. exact src_pred_remove_atomic. Qed.
+
+Theorem C15_src_succ_remove_atomic : forall s t x h' r, WF s -> hid_tid (hp s) ->
+  src_succ_remove_x (S (S (length (hp s)))) (hp s) t x = Ok (h', r) -> (forall b, r <> XRet b) -> h' = hp s.
+Proof. exact src_succ_remove_atomic. Qed.
+
+Theorem C15_src_set_parent_x_proj : forall F wr h t p, xproj (src_set_parent_x F wr h t p) = src_set_parent F wr h t p.
+Proof. exact src_set_parent_x_proj. Qed.
+
+Theorem C15_src_set_predecessors_x_proj : forall F h t vs,
+  xproj (src_set_predecessors_x F h t vs) = src_set_predecessors F h t vs.
+Proof. exact src_set_predecessors_x_proj. Qed.
+
+Theorem C15_src_set_successors_x_proj : forall F h t vs, xproj (src_set_successors_x F h t vs) = src_set_successors F h t vs.
+Proof. exact src_set_successors_x_proj. Qed.
+
+Theorem C15_src_set_children_x_proj : forall F h t vs, xproj (src_set_children_x F h t vs) = src_set_children F h t vs.
+Proof. exact src_set_children_x_proj. Qed.
+
+Theorem C15_src_ch_move_x_proj : forall h o ts b a, xproj (src_ch_move_x h o ts b a) = src_ch_move h o ts b a.
+Proof. exact src_ch_move_x_proj. Qed.
+
+Theorem C15_src_ch_insert_x_proj : forall F wr h o i t, xproj (src_ch_insert_x F wr h o i t) = src_ch_insert F wr h o i t.
+Proof. exact src_ch_insert_x_proj. Qed.
+
+Theorem C15_src_set_parent_outcome : forall s (t : obj) (p : option obj), WF s -> hid_tid (hp s) ->
+  t < length (hp s) -> (forall p', p = Some p' -> p' < length (hp s)) ->
+  xoutcome (hp s) (src_set_parent_x (S (S (length (hp s)))) (wroots s) (hp s) t p).
+Proof. exact src_set_parent_outcome. Qed.
+
+Theorem C15_src_set_children_outcome : forall s (t : obj) (vs : list (option obj)), WF s -> hid_tid (hp s) ->
+  t < length (hp s) -> (forall v, In (Some v) vs -> v < length (hp s)) ->
+  xoutcome (hp s) (src_set_children_x (S (S (length (hp s)))) (hp s) t vs).
+Proof. exact src_set_children_outcome. Qed.
+
+Theorem C15_src_ch_move_outcome : forall h o ts b a, xoutcome h (src_ch_move_x h o ts b a).
+Proof. exact src_ch_move_outcome. Qed.
+
 Print Assumptions C15_atomic.
 Print Assumptions C15_atomic_core.
 Print Assumptions C15_atomic_op_false_kinds.
@@ -347,3 +446,25 @@ Print Assumptions c15_demo_loops_accepted.
 Print Assumptions c15_loop_can_raise.
 Print Assumptions C15_bulk_parent_atomic.
 Print Assumptions C15_bulk_children_links_atomic.
+Print Assumptions C15_src_set_parent_x_raise.
+Print Assumptions C15_src_set_predecessors_x_raise.
+Print Assumptions C15_src_set_successors_x_raise.
+Print Assumptions C15_src_set_children_x_raise.
+Print Assumptions C15_src_ch_move_atomic.
+Print Assumptions C15_src_ch_insert_atomic_any.
+Print Assumptions C15_src_ch_append_atomic.
+Print Assumptions C15_src_ch_remove_atomic.
+Print Assumptions C15_src_ch_reorder_atomic.
+Print Assumptions C15_src_pred_append_atomic.
+Print Assumptions C15_src_succ_append_atomic.
+Print Assumptions C15_src_pred_remove_atomic.
+Print Assumptions C15_src_succ_remove_atomic.
+Print Assumptions C15_src_set_parent_x_proj.
+Print Assumptions C15_src_set_predecessors_x_proj.
+Print Assumptions C15_src_set_successors_x_proj.
+Print Assumptions C15_src_set_children_x_proj.
+Print Assumptions C15_src_ch_move_x_proj.
+Print Assumptions C15_src_ch_insert_x_proj.
+Print Assumptions C15_src_set_parent_outcome.
+Print Assumptions C15_src_set_children_outcome.
+Print Assumptions C15_src_ch_move_outcome.
